@@ -1575,6 +1575,13 @@ impl CanonicalizeContext {
 			}
 		}
 
+		/// false if the parent has a fixed number of (or paired) children, so merging two of them into one would break it
+		fn can_remove_sibling(leaf: Element) -> bool {
+			let parent = get_parent(leaf);
+			let parent_name = name(&parent);
+			return !(ELEMENTS_WITH_FIXED_NUMBER_OF_CHILDREN.contains(parent_name) || parent_name == "mmultiscripts");
+		}
+
 		/// If arg is "arc" (with optional space), merge the following element in if a trig function (sibling is deleted)
 		fn merge_arc_trig(leaf: Element) -> Option<Element> {
 			assert!(is_leaf(leaf));
@@ -1583,6 +1590,9 @@ impl CanonicalizeContext {
 				return None;
 			}
 
+			if !can_remove_sibling(leaf) {
+				return None;		// e.g., the base and script of an msub: both children are needed
+			}
 			let following_siblings = leaf.following_siblings();
 			if following_siblings.is_empty() {
 				return None;
@@ -1615,7 +1625,7 @@ impl CanonicalizeContext {
 			if leaf_text == "||" {
 				leaf.set_text("‖");		// U+2016
 				return Some(leaf);
-			} else if leaf_text != "|" {
+			} else if leaf_text != "|" || !can_remove_sibling(leaf) {
 				return None;
 			}
 			let following_siblings = leaf.following_siblings();
